@@ -244,6 +244,21 @@ def probe_single(item):
     """item: (key, gadget spec, level).  The gadget alone: is its dynamically observed flow reported?"""
     from lib import gen_flow
     key, g, level, n = item
+    if "_pair" in g:
+        # two gadgets in one entry function / method (or both at module level): is the flow of the SECOND one reported?
+        import random
+
+        class OneGroup(random.Random):
+            def choice(self, seq):
+                return 3 if seq == [1, 1, 2, 3] else super().choice(seq)
+        a, b = (dict(x) for x in g["_pair"])
+        a["gid"], b["gid"] = 0, 1
+        case = gen_flow.build_program(9000 + n, [a, b], OneGroup(0)).to_case()
+        r = analyse((f"p{n}", case, level))
+        at = tuple(case["gadgets"][1]["snk_at"] or ())
+        exp = [p for p in r["expected"] if (p[2], p[3]) == at]
+        mis = [p for p in r["missed"] if (p[2], p[3]) == at]
+        return {"key": key, "expected": exp, "missed": mis, "status": r["status"], "case": case}
     case = gen_flow.render_single(9000 + n, g)
     r = analyse((f"p{n}", case, level, tuple(g.get("_comp") or ())))
     return {"key": key, "expected": r["expected"], "missed": r["missed"], "status": r["status"], "case": case}
@@ -287,7 +302,56 @@ def norm_gadget(g):
 
 
 def gkey(g):
+    if "_pair" in g:
+        return json.dumps([norm_gadget(x) for x in g["_pair"]], sort_keys=True)
     return json.dumps(norm_gadget(g), sort_keys=True)
+
+
+def _pair(j, g):
+    """Both gadgets normalised, with different names from the pools (the first one takes index 1)."""
+    a, b = norm_gadget(j), norm_gadget(g)
+    a["src_idx"] = a["snk_idx"] = 1
+    return {"_pair": [a, b]}
+
+
+def interference(g, others):
+    """Generator: the gadget's flow is reported when it is alone and lost in its program.  Find another gadget of the program
+    that makes it disappear when the two share an entry, shrink both chains (delta debugging over real runs) and name the pair."""
+    found = None
+    for j in others[:8]:
+        r = yield _pair(j, g)
+        if r is False:
+            found = j
+            break
+    if found is None:
+        return None
+    j = dict(found, chain=[c for c in found["chain"] if c[0] != "broken"], twist=None)
+    r = yield _pair(j, g)
+    if r is not False:
+        j = found
+    cur = {"j": list(j["chain"]), "g": list(g["chain"])}
+    for who in ("j", "g"):
+        changed = True
+        while changed and cur[who]:
+            changed = False
+            for i in range(len(cur[who])):
+                cand = cur[who][:i] + cur[who][i + 1:]
+                pj = norm_gadget(dict(j, chain=cand if who == "j" else cur["j"]))
+                pg = norm_gadget(dict(g, chain=cand if who == "g" else cur["g"]))
+                r = yield _pair(pj, pg)
+                if r is False:
+                    cur[who] = (pj if who == "j" else pg)["chain"]
+                    changed = True
+                    break
+    pj, pg = norm_gadget(dict(j, chain=cur["j"])), norm_gadget(dict(g, chain=cur["g"]))
+    tk_txt = g["tk"]
+    r = yield _pair(dict(pj, tk="call", pos=0, twist=None, targets=None, put=None, snk_mode="base"),
+                    dict(pg, tk="call", pos=0, twist=None, targets=None, put=None, snk_mode="base"))
+    if r is False:
+        tk_txt = "any"
+    where = {"top": "at-module-level", "func": "in-the-same-function", "method": "in-the-same-method"}[g["place"]] \
+        if found["place"] == g["place"] else "in-the-same-program"
+    return f"{g['sk']}->{tk_txt}:via:{chain_text(pg['chain'])}:lost-after:{found['sk']}+{chain_text(pj['chain'])}:{where}"
 
 
 def chain_text(chain):
@@ -307,7 +371,7 @@ def reference_swaps(g):
         out.append(("layout", dict(g, layout=[0])))
     if g["place"] == "top":
         out.append(("place", dict(g, place="func")))
-    for sk_ref in ("param", "call", "mcall"):
+    for sk_ref in (("call", "mcall", "fread") if g.get("srcin") else ("param", "call", "mcall")):
         if sk_ref != g["sk"]:
             out.append(("sk", dict(g, sk=sk_ref, place="func" if sk_ref == "param" or g["place"] == "method" else g["place"])))
     for tk_ref in (("call", 0), ("mcall", 0), ("fwrite", 0)):
@@ -337,7 +401,7 @@ class Atom:
             return False
         if self.modes is not None and (g["src_mode"], g["snk_mode"]) != self.modes:
             return False
-        if getattr(self, "srcin", None) is not None and g.get("srcin") != self.srcin:
+        if getattr(self, "srcin", None) is not None and (not g.get("srcin") or self.srcin not in ("*", g["srcin"])):
             return False
         if self.tk is not None and getattr(self, "targets", None) != g.get("targets"):
             return False
@@ -421,7 +485,8 @@ def generalise(g, atom_chain):
         # a helper reached through `import m` + `m.helper(...)`: named by carrier kind, whatever the variant
         sig = f"{sk or 'any'}->{tk_txt}:via:{'+'.join(c for c, _ in atom_chain) or 'direct'}:helper-reached-through-module-import"
     if relevant.get("srcin"):
-        sig += f":source-in-callee({g['srcin']})"
+        # through a module-qualified (unresolved) callee every shape of the callee is lost alike
+        sig += ":source-in-callee" if relevant.get("imp") else f":source-in-callee({g['srcin']})"
     if relevant.get("layout"):
         sig += ":multi-file"
     if relevant.get("place"):
@@ -432,12 +497,12 @@ def generalise(g, atom_chain):
         sig += f":rules={g['src_mode']}/{g['snk_mode']}"
     atom = Atom(sig, sk, tk, g["pos"], atom_chain, bool(relevant.get("layout")), bool(relevant.get("place")), modes,
                 mod_import=bool(relevant.get("imp")))
-    atom.srcin = g.get("srcin") if relevant.get("srcin") else None
+    atom.srcin = ("*" if relevant.get("imp") else g.get("srcin")) if relevant.get("srcin") else None
     atom.targets = g.get("targets") if tk is not None else None
     return atom
 
 
-def attribute(g, atoms):
+def attribute(g, atoms, others=None):
     """Generator: yields gadget specs to probe in isolation, receives True (flow reported) / False (missed) / None
     (no dynamic flow or run failed).  `atoms` is the run-wide list of mechanisms named so far (shared, appended to).
     Returns the list of mechanism signatures that explain the miss."""
@@ -476,7 +541,8 @@ def attribute(g, atoms):
         if r is None:
             return []          # the isolated run died (reported as analysis-died) or showed no dynamic flow (counted)
         if r:
-            return [f"{g['sk']}->{g['tk']}:lost-only-among-other-flows"]
+            sig = yield from interference(g, others or [])
+            return [sig or f"{g['sk']}->{g['tk']}:lost-only-among-other-flows"]
     # a mechanism that a compensation switch cures is named after the switch (its shape in the program is not stable)
     if len(chain) >= 2:
         for sw in C10_SWITCHES:
@@ -515,7 +581,7 @@ def attribute(g, atoms):
     return sigs
 
 
-def run_attribution(missed_gadgets, level_of, timeout, cap_runs):
+def run_attribution(missed_gadgets, level_of, timeout, cap_runs, others_of=None):
     """missed_gadgets: {id: gadget}.  Gadgets are attributed in waves of increasing chain length (short chains name the
     mechanisms cheaply, long chains then only need 'is it reported once the known-bad carriers are dropped?'); inside a
     wave all attribute() generators advance in lock-step with batched real runs."""
@@ -540,7 +606,7 @@ def run_attribution(missed_gadgets, level_of, timeout, cap_runs):
         for part in (first, later):
             gens, pending = {}, {}
             for mid in part:
-                gen = attribute(missed_gadgets[mid], atoms)
+                gen = attribute(missed_gadgets[mid], atoms, (others_of or {}).get(mid))
                 gens[mid] = gen
                 try:
                     pending[mid] = next(gen)
@@ -626,6 +692,7 @@ def main():
     missed = {}           # id -> gadget
     level_of = {}
     missed_info = {}
+    others_of = {}
     samples = 0
     for r in forkpool.run_jobs(analyse, jobs, timeout=timeout, tag="c10"):
         tag, case, level = r.item
@@ -691,6 +758,9 @@ def main():
                 missed[mid] = g
                 level_of[mid] = level
                 missed_info[mid] = {"program": case, "level": level, "pair": list(pr), "gadget": g}
+                # the other gadgets of the program, those sharing its kind of entry first (for interference analysis)
+                oth = [norm_gadget(dict(o, place=o["place"])) for o in case["gadgets"] if o["gid"] != gid and "decoy_of" not in o]
+                others_of[mid] = sorted(oth, key=lambda o: o["place"] != g["place"])
         # generator sanity: positives the generator intended must have been observed dynamically
         for g in case["gadgets"]:
             dpos, drecv = gen_flow.designated(g)
@@ -699,7 +769,12 @@ def main():
             intended = (g["twist"] is None and not any(c == "broken" for c, _ in g["chain"]) and put_ok
                         and gen_flow.mode_active(g["src_mode"], level) and gen_flow.mode_active(g["snk_mode"], level))
             if "decoy_of" in g:
+                # a decoy is judged by the dynamic oracle alone (a line-only rule legitimately matches a decoy that happens to
+                # sit on the same line number of another file)
                 chk.count("decoy sites (same name, excluded by the restriction)", 1)
+                if g["gid"] in exp_gids:
+                    chk.count("decoy sites that the restriction does not exclude (same line number in another file)", 1)
+                continue
             if g.get("bad_target"):
                 chk.count("sink rules whose target list has an unknown keyword", 1)
             if intended:
@@ -717,7 +792,7 @@ def main():
     # attribution
     if missed:
         cap = 1500 if not thorough else 12000
-        done, runs, atom_sigs, died = run_attribution(missed, level_of, timeout, cap)
+        done, runs, atom_sigs, died = run_attribution(missed, level_of, timeout, cap, others_of)
         for status, case in sorted(died.items()):
             chk.fail("analysis-died:" + status, f"lian run on an isolated gadget ended with {status}", {"program": case, "level": "extended"})
         chk.extra["mechanisms named in this run"] = atom_sigs
